@@ -2,7 +2,7 @@
    models and the witnesses use to the current source. A change of the source table makes the
    corresponding obligation fail on the next run. *)
 From KV Require Import Yaml.Walk Yaml.Merge2 Yaml.Merge3 Yaml.Merge2Frame Yaml.Merge2Examples Yaml.Merge3Examples
-     Gen.WalkTables.
+     Yaml.Merge2Identity Gen.WalkTables.
 Local Open Scope list_scope.
 Local Open Scope string_scope.
 
@@ -61,3 +61,8 @@ Proof. vm_compute. reflexivity. Qed.
 Lemma gen_finalizers_primitive_ok :
   existsb (row_eqb ("Deployment", "apps/v1", ["metadata"; "finalizers"], "merge", [])) gen_merge_lists = true.
 Proof. vm_compute. reflexivity. Qed.
+
+(* the identity model reads the source's allow annotations and "enabled" value *)
+Lemma gen_allow_keys_ok :
+  gen_allow_name_key = allow_name_key /\ gen_allow_kind_key = allow_kind_key /\ gen_enabled = "enabled".
+Proof. repeat split. Qed.
